@@ -201,6 +201,240 @@ enum Via {
 }
 
 // ---------------------------------------------------------------------------
+// shared lists that are MUTATED by the concurrent calls: pushes, swaps, comparisons and
+// reads on two shared lists. There is no single-threaded result to compare a call with;
+// the oracles are conservation and order:
+//   * nobody dies, no call waits forever (progress-based, as above);
+//   * every value a call returns (`get`) is a value that was put into that list;
+//   * when all threads are done, the first n0 elements are a permutation of the initial
+//     ones (swaps stay below n0, values are unique), the rest is exactly the multiset of
+//     pushed values, each once, and the pushes of one thread appear in its program order;
+//     the length is n0 + number of pushes.
+// ---------------------------------------------------------------------------
+
+const SHARED_MUT_SRC: &str = "fn pu(a: List[u64], x: u64) {\n    a.push(x);\n}\n\nfn sw(a: List[u64], i: u64, j: u64) {\n    a.swap(i, j);\n}\n\nfn eq(a: List[u64], b: List[u64]) -> bool {\n    a == b\n}\n\nfn gt(a: List[u64], i: u64) -> u64 {\n    match a.get(i) {\n        Some(x) => x,\n        None => 0,\n    }\n}\n\nfn has(a: List[u64], x: u64) -> bool {\n    a.contains(x)\n}\n\nfn cc(a: List[u64], b: List[u64]) -> u64 {\n    a.concat(b).len()\n}\n";
+
+impl Concurrent {
+    fn shared_lists_mutating(&mut self, rng: &mut Rng, args: &Args) -> CaseOut {
+        let mut out = CaseOut::default();
+        out.hash = hash_str(SHARED_MUT_SRC) ^ rng.next();
+        out.sample = Some(J::obj().set("profile", "shared-lists-mutating").set("source", SHARED_MUT_SRC));
+        out.tags.push("profile:shared-lists-mutating".into());
+        let mut pkg = match catch(|| exec::compile(SHARED_MUT_SRC, &self.rt)) {
+            Ok(Ok(p)) => p,
+            Ok(Err(e)) => {
+                out.viol("concurrent:shared-lists-mutating-script-rejected", e.lines().next().unwrap_or("").to_string(), J::Null);
+                return out;
+            }
+            Err(p) => {
+                out.viol(format!("concurrent:compile-{}", panic_sig(&p)), p, J::Null);
+                return out;
+            }
+        };
+        type L = roto::List<u64>;
+        let pu = pkg.get_function::<fn(L, u64)>("pu").ok();
+        let sw = pkg.get_function::<fn(L, u64, u64)>("sw").ok();
+        let eq = pkg.get_function::<fn(L, L) -> bool>("eq").ok();
+        let gt = pkg.get_function::<fn(L, u64) -> u64>("gt").ok();
+        let has = pkg.get_function::<fn(L, u64) -> bool>("has").ok();
+        let cc = pkg.get_function::<fn(L, L) -> u64>("cc").ok();
+        let (Some(pu), Some(sw), Some(eq), Some(gt), Some(has), Some(cc)) = (pu, sw, eq, gt, has, cc) else {
+            out.skipped = Some("shared-lists-mutating:no-function".into());
+            return out;
+        };
+        // initial contents: unique values 1..=n0 in both lists (equal lists, so that == walks
+        // the elements); n0 next to a growth boundary now and then
+        let n0 = *rng.pick(&[2usize, 3, 4, 7, 8, 64]);
+        let a: L = (1..=n0 as u64).collect();
+        let b: L = (1..=n0 as u64).collect();
+        out.tags.push(format!("shared-lists-mutating:len:{n0}"));
+        let with_delays = rng.bool();
+        out.tags.push(format!("shared-lists-mutating:injected-delays:{with_delays}"));
+        let n_threads = *rng.pick(&[2usize, 3, 4, 8]);
+        out.tags.push(format!("threads:{n_threads}"));
+        let rounds: usize = if args.thorough() { 6000 } else { 2000 };
+        // what each thread mostly does
+        let mix = *rng.pick(&["mixed", "push-vs-eq", "swap-vs-swap", "push-vs-get"]);
+        out.tags.push(format!("shared-lists-mutating:mix:{mix}"));
+        if with_delays {
+            roto::verif::set_list_hook(Some(delay_hook));
+        }
+        // per thread: (pushed to a, pushed to b) in program order; or an error
+        let (tx, rx) = mpsc::channel::<Result<(Vec<u64>, Vec<u64>, u64), String>>();
+        let start = Arc::new(std::sync::Barrier::new(n_threads));
+        let progress = Arc::new(AtomicU64::new(0));
+        // set once some push has returned: from then on the two lists differ for good (pushed
+        // values are unique), so a comparison that STARTS afterwards must say "not equal"
+        let any_push = Arc::new(std::sync::atomic::AtomicBool::new(false));
+        for t in 0..n_threads {
+            let progress = progress.clone();
+            let any_push = any_push.clone();
+            let (pu, sw, eq, gt, has, cc) = (pu.clone(), sw.clone(), eq.clone(), gt.clone(), has.clone(), cc.clone());
+            let (a, b) = (a.clone(), b.clone());
+            let tx = tx.clone();
+            let start = start.clone();
+            let seed = rng.next();
+            std::thread::spawn(move || {
+                let mut r = Rng::new(seed);
+                start.wait();
+                let (mut pa, mut pb) = (Vec::new(), Vec::new());
+                let mut calls = 0u64;
+                let n0 = n0 as u64;
+                for round in 0..rounds {
+                    let op = match mix {
+                        // one pusher keeps the two lists equal (the same value goes to a, then to
+                        // b), everybody else compares them: the comparison walks all elements
+                        "push-vs-eq" => if t == 0 { 0 } else { 2 },
+                        "swap-vs-swap" => 1,
+                        "push-vs-get" => if t % 2 == 0 { 0 } else { 3 },
+                        _ => r.usize(6),
+                    };
+                    let first = if mix == "push-vs-eq" && op == 0 { round % 2 == 0 } else { r.bool() };
+                    let (x, y) = if first { (&a, &b) } else { (&b, &a) };
+                    match op {
+                        0 => {
+                            // a value no other push uses: thread in the high bits
+                            let v = if mix == "push-vs-eq" { ((t as u64 + 1) << 32) | (round / 2) as u64 } else { ((t as u64 + 1) << 32) | round as u64 };
+                            pu.call(x.clone(), v);
+                            any_push.store(true, Ordering::SeqCst);
+                            if first { pa.push(v) } else { pb.push(v) }
+                        }
+                        1 => sw.call(x.clone(), r.below(n0), r.below(n0)),
+                        2 => {
+                            let differ_already = mix != "push-vs-eq" && any_push.load(Ordering::SeqCst);
+                            let same = eq.call(x.clone(), y.clone());
+                            if same && differ_already {
+                                let _ = tx.send(Err(format!("thread {t} round {round}: a == b returned true although a push of a unique value had completed before the comparison began")));
+                                return;
+                            }
+                        }
+                        3 => {
+                            let i = r.below(n0 + 40);
+                            let v = gt.call(x.clone(), i);
+                            // 0 = out of range; else an initial value or a pushed one
+                            let ok = v == 0 || v <= n0 || ((v >> 32) >= 1 && (v >> 32) <= 64 && (v & 0xffff_ffff) < rounds as u64);
+                            if !ok {
+                                let _ = tx.send(Err(format!("thread {t} round {round}: get({i}) returned {v:#x}, a value nobody put into the list")));
+                                return;
+                            }
+                            if i < n0 && v == 0 {
+                                let _ = tx.send(Err(format!("thread {t} round {round}: get({i}) found nothing below the initial length {n0}")));
+                                return;
+                            }
+                        }
+                        4 => {
+                            // an initial value is always somewhere in the list
+                            // (whether a scan may miss an element that a concurrent swap moves is
+                            // judged under the controlled scheduler of C16, not here)
+                            let v = 1 + r.below(n0);
+                            let _ = has.call(x.clone(), v);
+                        }
+                        _ => {
+                            let n = cc.call(x.clone(), y.clone());
+                            if n < 2 * n0 {
+                                let _ = tx.send(Err(format!("thread {t} round {round}: concat has {n} elements, fewer than the two initial lengths {n0}+{n0}")));
+                                return;
+                            }
+                        }
+                    }
+                    calls += 1;
+                    progress.fetch_add(1, Ordering::Relaxed);
+                }
+                let _ = tx.send(Ok((pa, pb, calls)));
+            });
+        }
+        drop(tx);
+        let t0 = std::time::Instant::now();
+        let mut last_progress = (progress.load(Ordering::Relaxed), std::time::Instant::now());
+        let mut done = 0;
+        let mut total = 0u64;
+        let mut pushed: [Vec<Vec<u64>>; 2] = [Vec::new(), Vec::new()];
+        let mut complete = true;
+        while done < n_threads {
+            match rx.recv_timeout(std::time::Duration::from_millis(500)) {
+                Ok(Ok((pa, pb, c))) => {
+                    done += 1;
+                    total += c;
+                    pushed[0].push(pa);
+                    pushed[1].push(pb);
+                }
+                Ok(Err(m)) => {
+                    done += 1;
+                    complete = false;
+                    out.viol("concurrent:shared-lists-mutating-impossible-value", m, J::obj().set("threads", n_threads as u64).set("len", n0 as u64).set("mix", mix));
+                }
+                Err(mpsc::RecvTimeoutError::Timeout) => {
+                    let p = progress.load(Ordering::Relaxed);
+                    if p != last_progress.0 {
+                        last_progress = (p, std::time::Instant::now());
+                    } else if last_progress.1.elapsed().as_secs() >= 15 {
+                        complete = false;
+                        out.viol(
+                            "concurrent:shared-lists-mutating-calls-never-return",
+                            format!("{} of {n_threads} threads pushing / swapping / comparing two shared lists are stuck: no call returned on any thread for 15 s after {p} completed calls", n_threads - done),
+                            J::obj().set("threads", n_threads as u64).set("mix", mix).set("calls_completed", p),
+                        );
+                        break;
+                    }
+                    if t0.elapsed().as_secs() >= 180 {
+                        complete = false;
+                        out.skipped = Some("shared-lists-mutating:slow".into());
+                        break;
+                    }
+                }
+                Err(mpsc::RecvTimeoutError::Disconnected) => {
+                    complete = false;
+                    out.viol("concurrent:thread-panicked", "a worker thread of the shared-lists-mutating scenario ended without a result", J::Null);
+                    break;
+                }
+            }
+        }
+        roto::verif::set_list_hook(None);
+        if complete {
+            for (which, (list, pushes)) in [(&a, &pushed[0]), (&b, &pushed[1])].into_iter().enumerate() {
+                let name = if which == 0 { "a" } else { "b" };
+                let got: Vec<u64> = list.to_vec();
+                let n_pushed: usize = pushes.iter().map(|p| p.len()).sum();
+                let mut bad: Option<String> = None;
+                if got.len() != n0 + n_pushed {
+                    bad = Some(format!("list {name} has {} elements after {n_pushed} pushes onto {n0}", got.len()));
+                } else {
+                    let mut head: Vec<u64> = got[..n0].to_vec();
+                    head.sort_unstable();
+                    if head != (1..=n0 as u64).collect::<Vec<_>>() {
+                        bad = Some(format!("the first {n0} elements of list {name} are no longer a permutation of the initial values: {:?}", &got[..n0]));
+                    } else {
+                        // per thread: its pushes in program order
+                        let mut next: std::collections::HashMap<u64, usize> = std::collections::HashMap::new();
+                        let by_thread: std::collections::HashMap<u64, &Vec<u64>> = pushes.iter().filter(|p| !p.is_empty()).map(|p| (p[0] >> 32, p)).collect();
+                        for v in &got[n0..] {
+                            let th = v >> 32;
+                            let i = next.entry(th).or_insert(0);
+                            match by_thread.get(&th).and_then(|p| p.get(*i)) {
+                                Some(w) if w == v => *i += 1,
+                                other => {
+                                    bad = Some(format!("list {name}: found {v:#x} where the next push of thread {} was {:?} (lost, duplicated or reordered push)", th.wrapping_sub(1), other));
+                                    break;
+                                }
+                            }
+                        }
+                    }
+                }
+                if let Some(m) = bad {
+                    out.viol("concurrent:shared-lists-mutating-not-conserved", m, J::obj().set("threads", n_threads as u64).set("len", n0 as u64).set("mix", mix).set("injected_delays", with_delays));
+                }
+            }
+        }
+        out.evals = total;
+        out.events = total;
+        out.count("concurrent_calls", total);
+        out.count("shared_list_mutating_calls", total);
+        out.nontrivial = total > 0;
+        out
+    }
+}
+
+// ---------------------------------------------------------------------------
 // shared StringBufs: StringBuf is the other built-in type with shared interior state (a
 // mutex-protected string behind an Arc). The Rust type is not exported, so two threads
 // come to share StringBufs the way any host can make them: as script constants (every
@@ -875,6 +1109,9 @@ impl Family for Concurrent {
     }
 
     fn describe(&mut self, k: u64, rng: &mut Rng, _args: &Args) -> Option<J> {
+        if k % 16 == 13 {
+            return Some(J::obj().set("profile", "shared-lists-mutating").set("source", SHARED_MUT_SRC).set("sig_hint", "concurrent:shared-lists-mutating"));
+        }
         if k % 16 == 5 {
             return Some(J::obj().set("profile", "shared-stringbufs").set("source", shared_sb_src(5, true)).set("sig_hint", "concurrent:shared-stringbufs"));
         }
@@ -889,6 +1126,9 @@ impl Family for Concurrent {
     }
 
     fn run(&mut self, k: u64, rng: &mut Rng, args: &Args) -> CaseOut {
+        if k % 16 == 13 {
+            return self.shared_lists_mutating(rng, args);
+        }
         if k % 16 == 5 {
             return self.shared_stringbufs(rng, args);
         }
